@@ -382,11 +382,31 @@ theorem simLoop_nil (s : Sim K) : simLoop cfg [] s = .ok s := rfl
 theorem simLoop_cons (d : Nat) (ds : List Nat) (s : Sim K) :
     simLoop cfg (d :: ds) s = (simDay cfg d s).bind (simLoop cfg ds) := rfl
 
+theorem simDay0_mk (d : Nat) (w : World K) (t : ProgTree K) (papers : List (List Nat × Sim K)) :
+    simDay0 cfg d (.mk w t papers) =
+      (simPapers0 cfg d papers w).bind fun r =>
+        (updRoot cfg d r.2).map fun w2 => Sim.mk w2 t r.1 := by
+  rw [simDay0]
+
+theorem simPapers0_nil (d : Nat) (w : World K) : simPapers0 cfg d [] w = .ok ([], w) := by
+  rw [simPapers0]; rfl
+
+theorem simPapers0_cons (d : Nat) (path : List Nat) (s : Sim K) (rest : List (List Nat × Sim K)) (w : World K) :
+    simPapers0 cfg d ((path, s) :: rest) w =
+      (simDay0 cfg d s).bind fun s' =>
+        (simPapers0 cfg d rest { w with root := setPaperPx s'.world.price path w.root }).map fun r =>
+          ((path, s') :: r.1, r.2) := by
+  rw [simPapers0]
+
+theorem simShadow_nil (s : Sim K) : simShadow cfg [] s = .ok s := rfl
+theorem simShadow_cons (d0 : Nat) (ds : List Nat) (s : Sim K) :
+    simShadow cfg (d0 :: ds) s = (simDay0 cfg d0 s).bind (simLoop cfg ds) := rfl
+
 theorem simRun_mk (c : K) (d0 : Nat) (ds : List Nat) (w0 : World K) (t : ProgTree K)
     (papers : List (List Nat × Sim K)) :
     simRun cfg c (d0 :: ds) (.mk w0 t papers) =
       (opAdjust w0 [] c true true).bind fun w1 =>
-      (simPapers cfg d0 papers w1).bind fun r =>
+      (simPapers0 cfg d0 papers w1).bind fun r =>
       (updRoot cfg d0 r.2).bind fun w3 => simLoop cfg ds (.mk w3 t r.1) := rfl
 
 theorem simLoop_append (ds1 ds2 : List Nat) (s : Sim K) :
@@ -438,10 +458,21 @@ theorem simRun_leaf (c : K) (t : ProgTree K) (dates : List Nat) (w0 : World K) :
     cases opAdjust w0 [] c true true with
     | error e => rfl
     | ok w1 =>
-      rw [bind_ok, bind_ok, simPapers_nil, bind_ok]
+      rw [bind_ok, bind_ok, simPapers0_nil, bind_ok]
       cases updRoot cfg d0 w1 with
       | error e => rfl
       | ok w3 => exact simLoop_leaf t ds w3
+
+/-- **the two models of the stepping of a shadow copy agree**: for a leaf definition, `simShadow` (structural: the first date
+    of the owner's run) is `paperLoop` (`Bt.Engine.Backtest`: the row test `inow == 0` of the code) when the first date is row 0
+    and the clock never returns to it -/
+theorem simShadow_leaf (t : ProgTree K) (ds : List Nat) (w : World K) (hpos : ∀ d ∈ ds, d ≠ 0) :
+    simShadow cfg (0 :: ds) (.mk w t []) =
+      (paperLoop cfg (treeRun cfg t []) (0 :: ds) w).map fun w2 => Sim.mk w2 t [] := by
+  rw [simShadow_cons, simDay0_mk, simPapers0_nil, bind_ok, map_bind', P09.paperLoop_zero_cons cfg _ ds w hpos]
+  cases updRoot cfg 0 w with
+  | error e => rfl
+  | ok w1 => exact simLoop_leaf t ds w1
 
 /-! ### `setPaperPx` moves no position -/
 
@@ -484,20 +515,26 @@ theorem simPapers_noDust {d : Nat} : ∀ (papers : List (List Nat × Sim K)) (w 
 
 /-! ### funding then stepping over `d0 :: ds` is the stand-alone `simRun` -/
 
-/-- **the shadow copy of a definition (any nesting) is its stand-alone backtest**: the loop body on the first date
-    is the single `update(d0)` of `Backtest.run` because every gate of the definition's own tree is closed there;
-    the copy's own shadow copies (`papers`) are stepped identically on both sides -/
-theorem simLoop_funded_eq_simRun (htol : 0 < cfg.tol) (c : K) (d0 : Nat) (ds : List Nat) (w0 : World K)
-    (t : ProgTree K) (papers : List (List Nat × Sim K)) (hnd : P08.NoDust cfg w0.root)
-    (hgate : gateClosed d0 t = true) :
-    (opAdjust w0 [] c true true).bind (fun w1 => simLoop cfg (d0 :: ds) (.mk w1 t papers)) =
+/-- **the shadow copy of a definition (any nesting, any programs) is its stand-alone backtest**: on the first date a
+    shadow copy is only updated (`simDay0`) - exactly what `Backtest.run` does to its own tree there - and on the later
+    dates both get the loop body; the copy's own shadow copies (`papers`) are stepped identically on both sides.
+    No hypothesis: counting schedulers, open gates on the first date, dusty trees are all covered. -/
+theorem simShadow_funded_eq_simRun (c : K) (d0 : Nat) (ds : List Nat) (w0 : World K)
+    (t : ProgTree K) (papers : List (List Nat × Sim K)) :
+    (opAdjust w0 [] c true true).bind (fun w1 => simShadow cfg (d0 :: ds) (.mk w1 t papers)) =
       simRun cfg c (d0 :: ds) (.mk w0 t papers) := by
   rw [simRun_mk]
-  refine P09.bind_congr' _ fun w1 hw1 => ?_
-  rw [simLoop_cons, simDay_mk, P09.bind_assoc']
-  refine P09.bind_congr' _ fun r hr => ?_
-  have hnd2 : P08.NoDust cfg r.2.root := (simPapers_noDust _ _ _ hr).2 ((P09.opAdjust_noDust hw1).2 hnd)
-  rw [P09.btDay_gated htol hnd2 (fun w _ _ => treeRun_gate_closed t [] w hgate), map_bind']
+  refine P09.bind_congr' _ fun w1 _ => ?_
+  rw [simShadow_cons, simDay0_mk, P09.bind_assoc']
+  refine P09.bind_congr' _ fun r _ => ?_
+  rw [map_bind']
+
+/-- the first date of a stand-alone run is `simDay0` of the funded tree -/
+theorem simRun_eq_simDay0 (c : K) (d0 : Nat) (ds : List Nat) (w0 : World K)
+    (t : ProgTree K) (papers : List (List Nat × Sim K)) :
+    simRun cfg c (d0 :: ds) (.mk w0 t papers) =
+      (opAdjust w0 [] c true true).bind fun w1 => (simDay0 cfg d0 (.mk w1 t papers)).bind (simLoop cfg ds) :=
+  (simShadow_funded_eq_simRun c d0 ds w0 t papers).symm
 
 end sim
 
@@ -535,6 +572,25 @@ theorem simDay_papers {d : Nat} {w : World K} {t : ProgTree K} {papers : List (L
   obtain ⟨w2, _, rfl⟩ := map_eq_ok h
   exact ⟨w2, r.1, rfl, simPapers_forall₂ _ _ _ hr⟩
 
+theorem simPapers0_forall₂ {d : Nat} : ∀ (papers : List (List Nat × Sim K)) (w : World K)
+    (r : List (List Nat × Sim K) × World K), simPapers0 cfg d papers w = .ok r →
+    List.Forall₂ (fun a b => a.1 = b.1 ∧ simDay0 cfg d a.2 = .ok b.2) papers r.1
+  | [], w, r, h => by rw [simPapers0_nil] at h; cases h; exact .nil
+  | (path, s) :: rest, w, r, h => by
+    rw [simPapers0_cons] at h
+    obtain ⟨s', hs, h⟩ := bind_eq_ok h
+    obtain ⟨r1, h1, rfl⟩ := map_eq_ok h
+    exact .cons ⟨rfl, hs⟩ (simPapers0_forall₂ rest _ r1 h1)
+
+theorem simDay0_papers {d : Nat} {w : World K} {t : ProgTree K} {papers : List (List Nat × Sim K)} {S' : Sim K}
+    (h : simDay0 cfg d (.mk w t papers) = .ok S') :
+    ∃ w' papers', S' = .mk w' t papers' ∧
+      List.Forall₂ (fun a b => a.1 = b.1 ∧ simDay0 cfg d a.2 = .ok b.2) papers papers' := by
+  rw [simDay0_mk] at h
+  obtain ⟨r, hr, h⟩ := bind_eq_ok h
+  obtain ⟨w2, _, rfl⟩ := map_eq_ok h
+  exact ⟨w2, r.1, rfl, simPapers0_forall₂ _ _ _ hr⟩
+
 theorem forall₂_loop_refl : ∀ (papers : List (List Nat × Sim K)),
     List.Forall₂ (fun a b => a.1 = b.1 ∧ simLoop cfg [] a.2 = .ok b.2) papers papers
   | [] => .nil
@@ -561,18 +617,26 @@ theorem simLoop_papers {t : ProgTree K} : ∀ (ds : List Nat) {w : World K} {pap
     obtain ⟨w2, p2, rfl, f2⟩ := simLoop_papers ds h2
     exact ⟨w2, p2, rfl, forall₂_loop_cons f1 f2⟩
 
-/-- after a whole `simRun` of the parent every shadow copy has been stepped by its own `simLoop` over all the
-    dates (the synthetic row included) — whatever the parent's tree, programs, capital -/
+theorem forall₂_shadow_cons {d : Nat} {ds : List Nat} : ∀ {l1 l2 l3 : List (List Nat × Sim K)},
+    List.Forall₂ (fun a b => a.1 = b.1 ∧ simDay0 cfg d a.2 = .ok b.2) l1 l2 →
+    List.Forall₂ (fun a b => a.1 = b.1 ∧ simLoop cfg ds a.2 = .ok b.2) l2 l3 →
+    List.Forall₂ (fun a b => a.1 = b.1 ∧ simShadow cfg (d :: ds) a.2 = .ok b.2) l1 l3
+  | [], [], [], _, _ => .nil
+  | a :: l1, b :: l2, c :: l3, .cons h1 t1, .cons h2 t2 =>
+    .cons ⟨h1.1.trans h2.1, by rw [simShadow_cons, h1.2, bind_ok]; exact h2.2⟩ (forall₂_shadow_cons t1 t2)
+
+/-- after a whole `simRun` of the parent every shadow copy has been stepped by its own `simShadow` over all the
+    dates (update on the first, the loop body on the others) — whatever the parent's tree, programs, capital -/
 theorem simRun_papers {c : K} {d0 : Nat} {ds : List Nat} {w0 : World K} {t : ProgTree K}
     {papers : List (List Nat × Sim K)} {S' : Sim K} (h : simRun cfg c (d0 :: ds) (.mk w0 t papers) = .ok S') :
     ∃ w' papers', S' = .mk w' t papers' ∧
-      List.Forall₂ (fun a b => a.1 = b.1 ∧ simLoop cfg (d0 :: ds) a.2 = .ok b.2) papers papers' := by
+      List.Forall₂ (fun a b => a.1 = b.1 ∧ simShadow cfg (d0 :: ds) a.2 = .ok b.2) papers papers' := by
   rw [simRun_mk] at h
   obtain ⟨w1, _, h⟩ := bind_eq_ok h
   obtain ⟨r, hr, h⟩ := bind_eq_ok h
   obtain ⟨w3, _, h⟩ := bind_eq_ok h
   obtain ⟨w2, p2, rfl, f2⟩ := simLoop_papers ds h
-  exact ⟨w2, p2, rfl, forall₂_loop_cons (simPapers_forall₂ _ _ _ hr) f2⟩
+  exact ⟨w2, p2, rfl, forall₂_shadow_cons (simPapers0_forall₂ _ _ _ hr) f2⟩
 
 end papers
 
@@ -923,6 +987,45 @@ theorem simPapers_paperIn {d : Nat} : ∀ (papers : List (List Nat × Sim K)) (w
       exact simPapers_keep rest _ r1 h1 hnd.1 (setPaperPx_paperIn_self g1 g2)
     · exact simPapers_paperIn rest _ r1 h1 hnd.2 q s'' hm' (setPaperPx_paperT hq)
 
+theorem simPapers0_paperT {d : Nat} {q : List Nat} : ∀ (papers : List (List Nat × Sim K)) (w : World K)
+    (r : List (List Nat × Sim K) × World K), simPapers0 cfg d papers w = .ok r →
+    PaperT w.root q → PaperT r.2.root q
+  | [], w, r, h, hq => by rw [simPapers0_nil] at h; cases h; exact hq
+  | (path, s) :: rest, w, r, h, hq => by
+    rw [simPapers0_cons] at h
+    obtain ⟨s', _, h⟩ := bind_eq_ok h
+    obtain ⟨r1, h1, rfl⟩ := map_eq_ok h
+    exact simPapers0_paperT rest _ r1 h1 (setPaperPx_paperT hq)
+
+/-- a price reported at `q` survives the stepping of shadow copies at other paths -/
+theorem simPapers0_keep {d : Nat} {q : List Nat} {px : K} : ∀ (papers : List (List Nat × Sim K)) (w : World K)
+    (r : List (List Nat × Sim K) × World K), simPapers0 cfg d papers w = .ok r →
+    q ∉ papers.map (·.1) → PaperIn px w.root q → PaperIn px r.2.root q
+  | [], w, r, h, _, hq => by rw [simPapers0_nil] at h; cases h; exact hq
+  | (path, s) :: rest, w, r, h, hn, hq => by
+    rw [simPapers0_cons] at h
+    obtain ⟨s', _, h⟩ := bind_eq_ok h
+    obtain ⟨r1, h1, rfl⟩ := map_eq_ok h
+    simp only [List.map_cons, List.mem_cons, not_or] at hn
+    exact simPapers0_keep rest _ r1 h1 hn.2 (setPaperPx_paperIn_ne hn.1 hq)
+
+/-- after the shadow copies have been stepped, every paper-traded strategy that has one (distinct paths) reports
+    the price of its stepped copy -/
+theorem simPapers0_paperIn {d : Nat} : ∀ (papers : List (List Nat × Sim K)) (w : World K)
+    (r : List (List Nat × Sim K) × World K), simPapers0 cfg d papers w = .ok r →
+    (papers.map (·.1)).Nodup → ∀ q s', (q, s') ∈ r.1 → PaperT w.root q → PaperIn s'.world.price r.2.root q
+  | [], w, r, h, _, q, s', hm, _ => by rw [simPapers0_nil] at h; cases h; cases hm
+  | (path, s) :: rest, w, r, h, hnd, q, s'', hm, hq => by
+    rw [simPapers0_cons] at h
+    obtain ⟨s', _, h⟩ := bind_eq_ok h
+    obtain ⟨r1, h1, rfl⟩ := map_eq_ok h
+    simp only [List.map_cons, List.nodup_cons] at hnd
+    rcases List.mem_cons.1 hm with heq | hm'
+    · cases heq
+      obtain ⟨sd, kk, g1, g2⟩ := paperT_iff.1 hq
+      exact simPapers0_keep rest _ r1 h1 hnd.1 (setPaperPx_paperIn_self g1 g2)
+    · exact simPapers0_paperIn rest _ r1 h1 hnd.2 q s'' hm' (setPaperPx_paperT hq)
+
 /-- **one date of a nested backtest**: every shadow copy is stepped by its own `simDay`, and at the end of the
     day every paper-traded strategy of the tree that has a shadow copy shows the stepped copy's price as its own
     price, recorded at row `d` -/
@@ -968,7 +1071,7 @@ theorem simRun_first_child_price {c : K} {d0 : Nat} {w0 : World K} {t : ProgTree
   refine ⟨w3, r.1, rfl, fun q s' hm hq => ?_⟩
   have hl := ((RunC.single (C := fun _ => True) (.adjust _ _ _ _ h1)).lift (paperLaws cfg) (wok_true w0)).1
   obtain ⟨px, hin⟩ := hq
-  exact updRoot_paperAt h3 (simPapers_paperIn _ _ _ hr hnd q s' hm ⟨px, paperIn_of_lift hl hin⟩)
+  exact updRoot_paperAt h3 (simPapers0_paperIn _ _ _ hr hnd q s' hm ⟨px, paperIn_of_lift hl hin⟩)
 
 /-- **a whole nested backtest**: at the end, on the last date `dl`, every paper-traded strategy that has a shadow
     copy shows the final copy's price, recorded at row `dl` -/
@@ -990,7 +1093,7 @@ theorem simRun_child_price {c : K} {d0 : Nat} {ds : List Nat} {w0 : World K} {t 
     obtain ⟨S2, h2, h3⟩ := bind_eq_ok h2
     cases h3
     have hnd1 : (p1.map (·.1)).Nodup := by
-      rw [← forall₂_paths (R := fun a b => simLoop cfg (d0 :: ds') a = .ok b) f1]; exact hnd
+      rw [← forall₂_paths (R := fun a b => simShadow cfg (d0 :: ds') a = .ok b) f1]; exact hnd
     obtain ⟨w', papers', rfl, _, hp⟩ := simDay_child_price h2 hnd1
     refine ⟨w', papers', rfl, fun q s' hm hq => hp q s' hm ?_⟩
     -- the strategy at `q` is still paper-traded in `w1`
@@ -1000,7 +1103,7 @@ theorem simRun_child_price {c : K} {d0 : Nat} {ds : List Nat} {w0 : World K} {t 
     obtain ⟨w3, h3, h1⟩ := bind_eq_ok h1
     have hl := ((RunC.single (C := fun _ => True) (.adjust _ _ _ _ ha)).lift (paperLaws cfg) (wok_true w0)).1
     obtain ⟨px, hin⟩ := hq
-    obtain ⟨px', hin'⟩ := simPapers_paperT _ _ _ hr ⟨px, paperIn_of_lift hl hin⟩
+    obtain ⟨px', hin'⟩ := simPapers0_paperT _ _ _ hr ⟨px, paperIn_of_lift hl hin⟩
     exact simLoop_paperT ds' h1 ⟨px', (updRoot_paperAt h3 hin').paperIn⟩
 
 end price
